@@ -17,7 +17,7 @@ ASSUMPTIONS = ["the value stored at creation is remembered by a ledger (pickle r
                "filesystem backends only (the memory backend has no content keys)"]
 COMPONENTS = {"real": ["filesystem storage backend, codecs, metadata source, memory cache", "tmpfs"],
               "stub": ["uuid4 (seeded)", "clock (virtual)", "mementos built by the harness"]}
-REACH = ["io_errors_injected", "memoize_failed_with_io_error", "tree_scans", "immutability_reads", "dedup_shared_objects", "override_writes", "rememoize_live_key", "forgot_live"]
+REACH = ["reads_with_held_memento", "io_errors_injected", "memoize_failed_with_io_error", "tree_scans", "immutability_reads", "dedup_shared_objects", "override_writes", "rememoize_live_key", "forgot_live"]
 
 
 def cases(tier, seed):
